@@ -159,7 +159,7 @@ PREDS = {
 # program families (name prefix) that exercise each property
 RELEVANT = {
     "C05": None, "C06": None, "C07": ["A", "A2", "A3", "B2", "C", "F", "S", "L"],
-    "C08": ["A", "B", "B2", "B3", "D", "D2", "D3", "D4", "E", "E2", "S", "P"], "C09": ["P", "D", "D2", "D3"], "C10": ["L", "T"],
+    "C08": ["A", "B", "B2", "B3", "D", "D2", "D3", "D4", "E", "E2", "S", "P"], "C09": ["P", "P2", "D", "D2", "D3"], "C10": ["L", "T"],
 }
 
 
